@@ -249,7 +249,7 @@ func runRange() {
 	}
 	per := 300
 	if len(cases) > 6000 {
-		per = 400
+		per = 800
 	}
 	b := newBatcher(batchConfig{Name: "range", Prelude: rangePrelude, PerProgram: per, Workers: 8})
 	defer b.close()
@@ -313,7 +313,8 @@ func runRange() {
 		case "compile-error", "compile-panic", "go-build-error":
 			viol(x.Kind, c.text()+": "+x.Detail)
 		case "timeout":
-			viol("no-termination", c.text()+": program timed out")
+			// loops are cut by the model-derived cap, so a wall-clock time-out is a machine problem: inconclusive
+			fatal("range: case %d (%s) timed out", i, c.text())
 		default:
 			fatal("range: case %d (%s) has no result: %s %s", i, c.text(), x.Kind, x.Detail)
 		}
